@@ -3,6 +3,7 @@ import RV.Proofs.GravityTree
 import RV.Proofs.GravityEnc
 import RV.Proofs.GravityTrace
 import RV.Proofs.GravityJacobi
+import RV.Proofs.GravityShear
 /-
   C02 — every force routine computes the specified pairwise Newtonian sum.
 
@@ -53,6 +54,21 @@ theorem c02_basic_sources (kern : K → K) (cfg : Cfg K) (shifted : Bool) (bs : 
           if Src cfg.nActive cfg.tpType cfg.ignore k j
           then force (fun s _ _ => kern s) (cfg.soft * cfg.soft) m x gb k j else 0).sum) :=
   accBasic_declarative _ (fun _ _ _ => rfl) cfg _ (ghostList_symm shifted bs nx ny nz) m x hNa hig hk
+
+/-- BASIC with the ghost boxes of REB_BOUNDARY_SHEAR (boundary.c:161-184: column `i` is displaced
+    in y by `vy·t`, `vy = -1.5·i·OMEGA·Lx`, wrapped by three different `fmod` formulas for `i==0`,
+    `i>0`, `i<0`): the same declarative sum over the sheared ghost list.  Needs only that C `fmod`
+    is odd in the dividend and `fmod(0,b)=0`; a wrap formula that treats `+i` and `-i` columns
+    differently breaks `ghostListShear_symm`. -/
+theorem c02_basic_sources_shear (kern : K → K) (cfg : Cfg K) (fmod : K → K → K)
+    (hodd : ∀ a b, fmod (-a) b = -fmod a b) (h0 : ∀ b, fmod 0 b = 0) (bs : V3 K) (omega t : K)
+    (nx ny nz N : Nat) (m : Nat → K) (x : Nat → V3 K) (hNa : cfg.nActive ≤ N)
+    (hig : cfg.ignore ≤ 2) (k : Nat) (hk : k < N) :
+    (accBasic (fun s _ _ => kern s) cfg (ghostListShear fmod bs omega t nx ny nz) (mkPs N m x))[k]?
+      = some (((ghostListShear fmod bs omega t nx ny nz).map fun gb => ∑ j ∈ Finset.range N,
+          if Src cfg.nActive cfg.tpType cfg.ignore k j
+          then force (fun s _ _ => kern s) (cfg.soft * cfg.soft) m x gb k j else 0).sum) :=
+  accBasic_declarative _ (fun _ _ _ => rfl) cfg _ (ghostListShear_symm fmod hodd h0 bs omega t nx ny nz) m x hNa hig hk
 
 /-- without ghost boxes the ghost list is the single zero shift -/
 theorem c02_no_ghosts (shifted : Bool) (bs : V3 K) : ghostList shifted bs 0 0 0 = [0] :=
@@ -125,20 +141,22 @@ theorem c02_compensated_eq_basic (kern : K → K) (cfg : Cfg K) (N : Nat) (m : N
 
 /-! ### JACOBI -/
 
-/-- REB_GRAVITY_JACOBI (gravity.c:81-138), ∀ N: whatever the accelerations held before, slot `k`
-    ends up with (a) the direct Newtonian sum over all `j ≠ k` except the pair {0,1} — the
-    declarative source set of `gravity_ignore_terms = 1` with every particle active, no softening,
-    no ghost boxes — plus (b) the Jacobi terms `G·dQ/|Q_j|³·Q_j` of the outer iterations `j > 1`,
-    `j ≥ k`, where `Q_j = x_j − R_j/M_j`, `R_j = Σ_{i<j} m_i x_i`, `M_j = Σ_{i<j} m_i`
+/-- REB_GRAVITY_JACOBI (gravity.c:81-138), ∀ N, ∀ N_active: whatever the accelerations held
+    before, slot `k` ends up with (a) the direct Newtonian sum over the source set
+    `Src N_active true 1`: every `j ≠ k` such that `j` or `k` is active (test particles do not
+    attract each other, but — in this routine — attract and are attracted by active particles
+    whatever testparticle_type says), minus the pair {0,1}; no softening, no ghost boxes — plus
+    (b) the Jacobi terms `G·dQ/|Q_j|³·Q_j` of the outer iterations `j > 1`, `j ≥ k`, where
+    `Q_j = x_j − R_j/M_j`, `R_j = Σ_{i<j} m_i x_i`, `M_j = Σ_{i<j} m_i` over *all* particles
     (`dQ = −m_j` for `k < j`, `M_j` for `k = j`). -/
-theorem c02_jacobi_sources (kern : K → K) (G : K) (sqrt : K → K) (N : Nat) (m : Nat → K)
+theorem c02_jacobi_sources (kern : K → K) (G : K) (sqrt : K → K) (Na N : Nat) (m : Nat → K)
     (x : Nat → V3 K) (init : Acc K) (hinit : init.size = N) (k : Nat) (hk : k < N) :
-    (accJacobi kern G sqrt (mkPs N m x) init)[k]?
-      = some ((∑ j ∈ Finset.range N, if Src N false 1 k j
+    (accJacobi kern G sqrt Na (mkPs N m x) init)[k]?
+      = some ((∑ j ∈ Finset.range N, if Src Na true 1 k j
                 then force (fun s _ _ => kern s) 0 m x 0 k j else 0)
           + (∑ j ∈ Finset.range N, if 1 < j ∧ k ≤ j
                 then jacTerm G sqrt m x (Rn m x j) (Mn m j) j k else 0)) :=
-  accJacobi_get kern G sqrt m x init hinit hk
+  accJacobi_get kern G sqrt Na m x init hinit hk
 
 /-- the Jacobi terms carry no net momentum: `Σ_k m_k · (Jacobi terms of k) = 0`
     (because `M_j` is exactly the mass of the particles below `j`) -/
